@@ -1306,8 +1306,10 @@ def _pipeline_doc():
         return El("stop", {"offset": o})
     pf = El("path", {"id": "pf", "d": pd(("M", (90, 2)), ("L", (93, 2)), ("L", (93, 3)), ("Z", ())), "fill": "orange"}, name="pf")
     ps = El("path", {"id": "ps", "d": pd(("M", (90, 12)), ("L", (93, 12)), ("L", (93, 13)), ("Z", ())), "style": "fill:teal"}, name="ps")
-    defs = El("defs", {}, [El("linearGradient", {"id": "g1"}, [stop("0"), stop("1")]), El("linearGradient", {"id": "gz"}, [stop("0")]),
-                           El("clipPath", {"id": "c"}, [El("rect", {"width": "4", "height": "3"})]), pf, ps], name="defs")
+    # a shape that only sits in defs (never instantiated) and is the only user of a gradient
+    pdef = El("path", {"id": "pdef", "d": pd(("M", (90, 22)), ("L", (93, 22)), ("L", (93, 23)), ("Z", ())), "fill": "url(#gd)"}, name="pdef")
+    defs = El("defs", {}, [El("linearGradient", {"id": "g1"}, [stop("0"), stop("1")]), El("linearGradient", {"id": "gz"}, [stop("0")]), El("linearGradient", {"id": "gd"}, [stop("0")]),
+                           El("clipPath", {"id": "c"}, [El("rect", {"width": "4", "height": "3"})]), pf, ps, pdef], name="defs")
     p1 = El("path", {"id": "p1", "d": pd(("m", (Fraction("1.23456"), 1)), ("l", (2, 0)), ("v", (2,)), ("h", (-2,)), ("z", ()))}, name="p1")
     z1 = El("path", {"id": "z1", "d": pd(("M", (50, 50)), ("L", (51, 51)))}, name="z1")
     ga = El("g", {"opacity": "0.5", "id": "ga"}, [p1, z1], name="ga")
